@@ -25,6 +25,8 @@ def h12_consume_mem(S):
     due = S.int("due", Y2000, Y2100) if origin == 1 else None
     S.tag("origin", ["waiting", "delayed", "arrives-while-polling"][origin])
     arrives_after = [0.0005, 0.3, 1.2][S.pick("arrives_after", 3)] if origin == 2 else None
+    # ... and the wall clock has moved on since the consumer started to wait
+    advance = S.int("clock_advanced_while_waiting", 0, 2 * SEC) if origin == 2 else 0
     params = P.Parameters(timestamp=S.datetime_us(ts), ttl=S.timedelta_us(ttl) if has_ttl else None,
                           delay=P.DelayProperties(next_execution_time=S.datetime_us(due) if origin == 1 else None))
     key = RoutingKey(topic="job", queue="default", id_="m1")
@@ -48,6 +50,7 @@ def h12_consume_mem(S):
             import asyncio
             waiting = asyncio.ensure_future(try_consume(cons, timeout=2.5))
             await asyncio.sleep(arrives_after)
+            clock.set(now + advance)
             await broker.enqueue(key, "p", params)
             out["got"] = await waiting
         else:
@@ -60,6 +63,7 @@ def h12_consume_mem(S):
     run_async(main, clock=clock)
     got = out["got"] is not None
     names = place_names(out["places"], "m1")
+    now = now + advance                  # the instant of the delivery decision
     if origin == 1 and not (now > due):
         S.cover("not-due")
         S.check("not-due-stays-delayed", (not got) and names == ["delayed"])
